@@ -249,6 +249,8 @@ func (dlv *Delivery) Calculate() error {
 	// Try to set Regime if not already prepared from the supplier's tax ID
 	if dlv.Regime.IsEmpty() {
 		dlv.SetRegime(partyTaxCountry(dlv.Supplier))
+	} else {
+		dlv.NormalizeRegime()
 	}
 	dlv.Normalize(dlv.normalizers())
 	return calculate(dlv)
